@@ -697,6 +697,7 @@ func runC11(c *Ctx) {
 	if len(sp) < 2 {
 		c.undecided("C11-R5: fewer than 2 window spellings found in docs/*.md")
 	}
+	checkWindowVocabulary(c)
 }
 
 // checkClientIP: header-derived returns only under trustProxy.
